@@ -119,7 +119,7 @@ def main():
         "setup_cmd": "./check setup",
         "hooks": {
             "guard": "verif (Go build tag)",
-            "enable": "go build -tags verif -overlay /verif/.work/overlay.json (in-package accessors and harness mains are injected from /verif/inpkg and /verif/harness; nothing is committed to /repo)",
+            "enable": "go build -tags verif -overlay /verif/.work/run.<pid>/overlay.json (generated per invocation by tools/mkoverlay.py) (in-package accessors and harness mains are injected from /verif/inpkg and /verif/harness; nothing is committed to /repo)",
             "baseline_off_cmd": "cd /repo && GOFLAGS=-mod=mod GOPROXY=off go test -vet=off -count=1 -timeout 25m ./...",
             "source_commits": [],
             "add_only": True,
